@@ -163,6 +163,7 @@ type FuncVC struct {
 	deferKeys []Term
 	allocs []*ssa.Alloc
 	subSeen map[string]bool
+	curPos token.Pos
 	inlinedFns map[string]bool
 	inlineOuter []savedBlockLoops
 }
@@ -440,7 +441,47 @@ func (vc *FuncVC) updatePath(root Term, rootT types.Type, path []pathElem, v Ter
 	return app(root.Sort, "store", root, *pe.idx, vc.updatePath(inner, et, path[1:], v))
 }
 
+// elemInv returns the global element invariant for values of Go type t applied to v (or true).
+func (vc *FuncVC) elemInv(s *State, t types.Type, v Term) (Term, string) {
+	if t == nil {
+		return tTrue, ""
+	}
+	tn := normType(t)
+	for _, ei := range vc.eng.specs.ElemInvs {
+		if ei.Type != tn {
+			continue
+		}
+		act := false
+		for _, tg := range ei.Tags {
+			if tg == "base" || tg == vc.prop {
+				act = true
+			}
+		}
+		if !act {
+			continue
+		}
+		e := vc.newEnv(s, s, token.NoPos)
+		e.noLocals = true
+		v.GoT = t
+		e.vars["x"] = v
+		return vc.tr(e, ei.E), ei.Src
+	}
+	return tTrue, ""
+}
+
 func (vc *FuncVC) loadAddr(s *State, a *Addr) Term {
+	if a.kind == "arr" && len(a.path) == 0 {
+		t := vc.loadAddr0(s, a)
+		if f, src := vc.elemInv(s, a.typ, t); f.S != "true" {
+			vc.assume(s.pc, f)
+			vc.assumedUsed["global element invariant on "+normType(a.typ)+": "+src+" (checked at every store in the functions under contract, assumed at loads; application-provided slices are assumed to satisfy it)"] = true
+		}
+		return t
+	}
+	return vc.loadAddr0(s, a)
+}
+
+func (vc *FuncVC) loadAddr0(s *State, a *Addr) Term {
 	switch a.kind {
 	case "local", "global":
 		root := vc.get(s, a.key, vc.ss.sortOf(a.typ))
@@ -465,6 +506,12 @@ func (vc *FuncVC) loadAddr(s *State, a *Addr) Term {
 }
 
 func (vc *FuncVC) storeAddr(s *State, a *Addr, v Term) {
+	if a.kind == "arr" && len(a.path) == 0 {
+		if f, src := vc.elemInv(s, a.typ, v); f.S != "true" {
+			n := vc.siteCounter("safe.elem")
+			vc.oblige("safe.elem", fmt.Sprintf("safe.elem@store#%d", n), "element invariant of "+normType(a.typ)+": "+src, vc.curPos, s.pc, f)
+		}
+	}
 	switch a.kind {
 	case "local", "global":
 		root := vc.get(s, a.key, vc.ss.sortOf(a.typ))
